@@ -42,7 +42,7 @@ MECHANISMS = [
     (_PF, 'StorageUnitLabel.__init__'),
     (_PF, 'LogicalRecordSegmentHeader.logical_data_length'),
 ]
-REQUIRED_MONITORS = ['records_vs_model', 'label_vs_model', 'label_sweep', 'reiteration', 'path_vs_stream', 'lockstep_two_readers',
+REQUIRED_MONITORS = ['records_vs_model', 'label_vs_model', 'label_accepted_by_type_detection', 'label_sweep', 'reiteration', 'path_vs_stream', 'lockstep_two_readers',
                      'contract:FileLogicalData.invariant', 'contract:FileLogicalData.add_bytes', 'contract:FileLogicalData.seal',
                      'contract:FileRead.seek_next_header', 'contract:FileRead.read_full_logical_data']
 MIN_NONTRIVIAL = {'quick': 20000, 'thorough': 1200000}
@@ -181,6 +181,17 @@ class Checker:
 
     def compare_label(self, sul, m, data, model, how):
         self.rec.mon('label_vs_model')
+        # "accepted" also means: the file type detection (the gate of every RP66V1 command line tool) takes the label for RP66V1
+        from TotalDepth.util import bin_file_type
+        self.rec.mon('label_accepted_by_type_detection')
+        try:
+            code = bin_file_type.binary_file_type(io.BytesIO(data))
+        except Exception as e:  # noqa
+            code = 'raised %s: %s' % (type(e).__name__, e)
+        if code != 'RP66V1':
+            self.violation('label_accepted_by_type_detection', 'not-rp66v1', 'file with the conformant label %r is identified as %r by binary_file_type' % (m.as_bytes(), code),
+                           {'label': m.as_bytes(), 'got': code, 'file': data[:400],
+                            'label_fields': {'sequence': m.seq_text, 'maximum_record_length': m.max_text, 'version': m.version, 'identifier': m.ident}})
         got = {'storage_unit_sequence_number': sul.storage_unit_sequence_number, 'dlis_version': sul.dlis_version,
                'storage_unit_structure': sul.storage_unit_structure, 'maximum_record_length': sul.maximum_record_length,
                'storage_set_identifier': sul.storage_set_identifier}
